@@ -131,4 +131,42 @@ example : CompareM.field MW.env MW.tUE (MW.ue 1 (MW.ints 2 1)) (MW.ue 2 .nilv) =
 example : CompareM.field MW.env (.ptr MW.tUE) .nilv (.ptr 1 (MW.ue 2 .nilv)) = .ok (-1) := by
   rw [(compareM_field_at_method MW.env (.ptr MW.tUE) MW.tUE .ptr _ _).2 rfl rfl (by decide)]; decide
 
+/-! ### Known finding F40, as the model has it
+
+A type whose Equal and Compare methods both take their argument BY VALUE (`func (x T) Compare(y T) int`):
+`plugin/compare`'s `field` "falls through to dereferencing of pointers" for such a method and ends in the
+helper for `*T`, which compares the fields, while `plugin/equal` calls the Equal method (with inline nil
+checks). The clause "Compare returns 0 exactly when derived Equal holds" is therefore FALSE of the model —
+and of the code: the tie replays the same witness on the emitted functions (op class `cmpeqv`). -/
+namespace F40
+set_option linter.unusedSimpArgs false
+
+/-- `type T struct{ A int64; B string }` with `func (x T) Equal(y T) bool` and `func (x T) Compare(y T) int`,
+both looking at `A` only -/
+def env : Env := { decls := [
+  { under := .struct (.fcons (.basic (.int 64 true)) (.fcons (.basic .string) .fnil)), canEq := true,
+    canEqM := false, eqM := some .val, cmpM := some .val } ] }
+/-- `T{0, "ff"}` and `T{0, ""}`: equal for the methods, different structurally -/
+def a : Val := .struct (.scons (.int 0) (.scons (.str [102, 102]) .snil))
+def b : Val := .struct (.scons (.int 0) (.scons (.str []) .snil))
+
+/-- at top level, on the struct values -/
+theorem f40_witness_top :
+    EqualM.top env (.named 0) a b = .ok true ∧ CompareM.top env (.named 0) a b = .ok 1 := by
+  constructor
+  · equalM_eval [env, a, b]
+  · simp +decide [CompareM.top.eq_def, CompareM.field.eq_def, CompareM.fields, Env.cmpM?, Env.under,
+      Env.decl?, Ty.isNamed, cmpLeaf, env, a, b]
+
+/-- as a component behind a pointer (`F *T`) -/
+theorem f40_witness_ptr_field :
+    EqualM.field env (.ptr (.named 0)) (.ptr 1 a) (.ptr 2 b) = .ok true ∧
+    CompareM.field env (.ptr (.named 0)) (.ptr 1 a) (.ptr 2 b) = .ok 1 := by
+  constructor
+  · equalM_eval [env, a, b]
+  · simp +decide [CompareM.top.eq_def, CompareM.field.eq_def, CompareM.fields, Env.cmpM?, Env.under,
+      Env.decl?, Ty.isNamed, cmpLeaf, env, a, b]
+
+end F40
+
 end Goderive.C03
